@@ -1,6 +1,6 @@
 SPECIFICATION TSpec
 CONSTANTS
-  Variant = "pinned"
+  Variant = "euclid"
   Trains = {}
   Templates = {}
   Topos = {}
